@@ -12,6 +12,7 @@ import (
 	crand "crypto/rand"
 	"fmt"
 	"math/big"
+	"strings"
 
 	secp256k1 "gitlab.com/yawning/secp256k1-voi"
 
@@ -314,6 +315,22 @@ func main() {
 				p := pts[(si+path)%len(pts)]
 				if m := mc.Safe(func() string { return runMul(s.V, p.P, zs[path%len(zs)], path, path%2 == 1, -1) }); m != "" {
 					R.Fail("mul/default entropy source stuck at a constant", "misc", map[string]any{"crypto_rand_reader": src, "s": mc.HexBig(s.V), "point": p.Label, "path": paths[path], "what": m}, nil)
+				}
+			}
+		}
+	}
+	// ... and with a default entropy source that FAILS (error at once, error after 5 bytes, endless empty reads are left
+	// out: no horizon): a multiplication has no error result, so it may refuse (panic) - what it may never do is
+	// return something that is not s*P
+	for _, fa := range []int{0, 5} {
+		crand.Reader = mc.Script{Src: "counter", Mode: "full", FailAfter: fa}.New()
+		for si, s := range []mc.Val{sc[0], sc[nGLV/2], sc[len(sc)-1]} {
+			for path := range paths {
+				R.T(1)
+				p := pts[(si+path)%len(pts)]
+				m := mc.Safe(func() string { return runMul(s.V, p.P, zs[path%len(zs)], path, path%2 == 1, -1) })
+				if m != "" && !strings.HasPrefix(m, "panic") {
+					R.Fail("mul/default entropy source failing", "misc", map[string]any{"crypto_rand_reader_fails_after": fa, "s": mc.HexBig(s.V), "point": p.Label, "path": paths[path], "what": m}, nil)
 				}
 			}
 		}
